@@ -3,27 +3,27 @@
 # the repository's own tests (stable baseline list) still pass with it.
 # usage: confirm_seed.sh <worktree> <demo test target (e.g. demo_c02)> [extra cargo packages for the suite]
 set -u
-WT=$1; DEMO=$2; shift 2
+WT=$1; DEMO=$2; PKG=${3:-shuttle}
 cd "$WT" || exit 2
 export CARGO_TARGET_DIR="$WT/target" CARGO_NET_OFFLINE=true
 OUT="$WT/SEED/confirm.log"
 mkdir -p "$WT/SEED"
 # the demonstration is a top-level integration test of the shuttle crate
-[ -f "shuttle/tests/$DEMO.rs" ] || cp "SEED/$DEMO.rs" "shuttle/tests/$DEMO.rs"
+[ "$PKG" != shuttle ] || [ -f "shuttle/tests/$DEMO.rs" ] || cp "SEED/$DEMO.rs" "shuttle/tests/$DEMO.rs"
 git diff --quiet || true
-if git diff --quiet -- . ':!shuttle/tests'; then git apply SEED/patch.diff; fi
+if git diff --quiet -- . ':!shuttle/tests' ':!*/tests/demo_*'; then git apply SEED/patch.diff; fi
 {
 echo "== demo WITH the change (expected: fails)"
-cargo test -p shuttle --offline --test "$DEMO" -j4 -- --test-threads=2 2>&1 | grep -E "^test |test result|panicked" | head -20
+cargo test -p "$PKG" --offline --test "$DEMO" -j4 -- --test-threads=2 2>&1 | grep -E "^test |test result|panicked" | head -20
 echo "== demo WITHOUT the change (expected: passes)"
 # (never `git stash` here: the stash stack is shared by all worktrees of a repository)
 git apply -R SEED/patch.diff && {
-  cargo test -p shuttle --offline --test "$DEMO" -j4 -- --test-threads=2 2>&1 | grep -E "^test |test result|panicked" | head -20
+  cargo test -p "$PKG" --offline --test "$DEMO" -j4 -- --test-threads=2 2>&1 | grep -E "^test |test result|panicked" | head -20
   git apply SEED/patch.diff
 }
-git diff -- . ':!shuttle/tests' | diff -q - SEED/patch.diff >/dev/null && echo "worktree change == SEED/patch.diff" || echo "WARNING: worktree change differs from SEED/patch.diff"
+git diff -- . ':!shuttle/tests' ':!*/tests/demo_*' | diff -q - SEED/patch.diff >/dev/null && echo "worktree change == SEED/patch.diff" || echo "WARNING: worktree change differs from SEED/patch.diff"
 echo "== repository test suite WITH the change (stable baseline list)"
-cargo nextest run --workspace --no-fail-fast --tool-config-file pb:/w/lib/nextest.toml --profile pb --test-threads 4 --offline -E "not binary($DEMO)" >"$WT/SEED/suite.log" 2>&1
+cargo nextest run --workspace --no-fail-fast --tool-config-file pb:/w/lib/nextest.toml --profile pb --test-threads ${SUITE_THREADS:-4} --offline -E "not binary($DEMO)" >"$WT/SEED/suite.log" 2>&1
 JUNIT=$(find "$WT/target/nextest/pb" -name junit.xml | head -1)
 python3 - "$JUNIT" <<'EOF'
 import sys, json, xml.etree.ElementTree as ET
